@@ -55,6 +55,9 @@ fn tl_pool() -> Vec<(String, TlS)> {
     v.push(make(Some(2), None, Some(0), false, None, &[(1, 1)])); // 0.5s 1x to {a:2.0,k:7}
     v.push(make(None, None, None, false, None, &[(1, 0)])); // to {a:1.0}
     v.push(make(Some(0), Some(2), None, false, Some(1), &[(0, 0), (1, 1)]));
+    // keyframe-less timelines: the state still has a timeline (is_ended, pause/resume behave accordingly)
+    v.push(make(Some(8), None, None, false, None, &[])); // for 2s
+    v.push(make(Some(0), Some(1), None, false, None, &[])); // 1s after 250ms
     v.into_iter().map(|s| (s.render(&s.canonical_order()), s)).collect()
 }
 
@@ -81,6 +84,7 @@ fn arm_options(thorough: bool) -> Vec<ArmS> {
     tls.push((vec![pool[0].clone(), pool[5].clone()], true));
     tls.push((vec![pool[3].clone(), pool[2].clone()], true));
     tls.push((vec![pool[1].clone()], true)); // bracketed single
+    tls.push((vec![pool[8].clone(), pool[9].clone()], true)); // merged list of keyframe-less timelines
     if thorough {
         tls.push((vec![pool[4].clone(), pool[0].clone(), pool[3].clone()], true));
         tls.push((vec![pool[6].clone(), pool[7].clone()], true));
